@@ -156,6 +156,15 @@ Theorem C16_fuel_suffices : forall (nm : name) callers scr wn (st : store V),
   run nm (fuel_for callers) (init callers scr wn st) <> None.
 Proof. exact (@fuel_suffices V). Qed.
 
+(* ---- a request follows the context of the caller it is made for: in the service's log every request
+   ends no later than that caller's (possibly augmented) context - it cannot outlive the flight's owner,
+   let alone every caller.  (Together with C16_single_flight: the log is a sequence of closed intervals,
+   each inside its owner's lifetime.)  The monitor end_ok is applied to the OBSERVED log too. *)
+Theorem C16_request_ends_by_owner : forall (nm : name) callers scr wn (st : store V) fuel s',
+  run nm fuel (init callers scr wn st) = Some s' ->
+  forall o t r, In (MEnd o t r) (log s') -> t <= fst (cend (nth o callers (C 0 None None))).
+Proof. exact (@request_ends_by_owner V). Qed.
+
 (* ---- the cache.  flushCacheLocked's error inside a lookup is only logged (store.go:410-412): the
    model with a cache (cstate / crun: the cache's answers are an input, one per Write) projects onto the
    flight model, so callers' results and instants, the request log and the store - the installed
@@ -182,6 +191,7 @@ Proof. exact (@error_leaves_store V). Qed.
 End C16.
 
 Print Assumptions C16_fuel_suffices.
+Print Assumptions C16_request_ends_by_owner.
 Print Assumptions C16_cache_is_projection.
 Print Assumptions C16_flush_outcome_irrelevant.
 Print Assumptions C16_error_leaves_store.
@@ -281,4 +291,9 @@ Example ex_cache_refuses :
   /\ option_map (@core N) good = option_map (@core N) bad
   /\ option_map (fun c => map (map fst) (landed c)) good = Some [[ex_x]].
 Proof. vm_compute. repeat split. Qed.
+
+(* the monitor rejects a request that outlives its owner's context (caller 3 above is cancelled at 50 s) *)
+Example ex_monitor_request_outlives_owner :
+  end_ok ex_callers (MEnd 3 50000 OCtx) = true /\ end_ok ex_callers (MEnd 3 80000 OCtx) = false.
+Proof. vm_compute. split; reflexivity. Qed.
 
